@@ -13,6 +13,7 @@ inductive Operand where
   | inp (k : Nat)
   | out (k : Nat)
   | num (n : Nat)
+  | so (short : String) (k : Nat)   -- shared-object name <short><k>
   | bad                      -- any token that is none of the above
 deriving DecidableEq, Repr, Inhabited
 
@@ -40,6 +41,8 @@ def encOperand (a : Arch) : FieldKind → Operand → Option Bits
   | .loc, .num n => some (encField a.locBits n)
   | .locO, .num n => some (encField (a.width .locO) n)
   | .const w, .num n => some (encField w n)
+  | .so kind short, .so s k =>
+    if s = short ∧ k < a.sharedNum kind then some (encField (a.sharedBits kind) k) else none   -- Process_shared
   | _, _ => none
 
 def encOperands (a : Arch) : List FieldKind → List Operand → Option Bits
@@ -95,6 +98,7 @@ def decOperand (f : FieldKind) (v : Nat) : Operand :=
   | .reg => .reg v
   | .inp => .inp v
   | .out => .out v
+  | .so _ short => .so short v
   | _ => .num v
 
 /-- slice the operand fields off a body, in order -/
